@@ -936,6 +936,17 @@ def it_chain(*parts):
     return out
 
 
+@model("inspect.isclass")
+def py_isclass(x):
+    from .interp import ClassVal
+    return isinstance(x, ClassVal)
+
+
+@model("numpy.ptp")
+def np_ptp(x):
+    return S.sub(np_max(x), np_min(x))
+
+
 @model("time.time")
 def py_time():
     """time(): an arbitrary non-decreasing clock"""
